@@ -24,6 +24,7 @@ RULE = ("one run = one simulated terminal with mailbox sizes drawn from "
         "distinct = distinct (mailbox sizes, transfers, delays, mail) histories; "
         "non-trivial = at least one transfer exchanged two or more mailbox messages")
 RULE += "; since the 4th session also a transfer abandoned while its request is still unfetched in the terminal's mailbox before the judged one (12 %), and under the parallel master a terminal that remembers the mailbox counter of an earlier master session"
+RULE += '; also a second user of the mailbox (own Terminal object) making 6/13/5/7/1 exchanges between two reads of one value'
 COMPONENTS = {
     "real": ["ebpfcat.ethercat.Terminal.sdo_read/sdo_write/mbx_send/mbx_recv",
              "ebpfcat.lock.MailboxLock", "EtherCat.roundtrip path"],
